@@ -89,6 +89,28 @@ def run(F, R, tier):
         oks = [s for t, s in r["ends"] if t == "ok"]
         R.ob("stmt-arm-balance", "Statement::%s" % var, all(s.h is None or s.h == Lin(0) for s in oks) and all(not s.pend for s in oks),
              "%d paths; height change %s" % (len(oks), sorted({e5run.fmt_h(s.h) for s in oks})), F.loc(g), nontrivial=bool(oks))
+    from .lib.vmeffects import lmin
+    bad = []
+    n = 0
+    for table, floors in ((res["stmt"], None), (res["expr"], e5run.CLASS_FLOOR)):
+        for (var, ctx), r in table.items():
+            for t, s in r["ends"]:
+                if t != "ok":
+                    continue
+                n += 1
+                if floors is None:
+                    fl = Lin(0)
+                else:
+                    cls = e5run.expected_class(var, e5run.access_of(s, r["pname"], var), e5run.left_of(s, r["pname"], var) if var == "Assign" else None)
+                    if cls is None:
+                        continue
+                    fl = Lin(floors[cls])
+                if not (lmin(s.minh, fl) == fl):
+                    bad.append("%s[%s] reaches %s" % (var, ctx, s.minh))
+    R.ob("arm-floor", "no emitted instruction consumes operands below what its construct was given (all statement and expression arms)", not bad and n > 500,
+         "%d paths; violations: %s" % (n, sorted(set(bad))[:3]))
+    from .c05 import matches_type_table
+    matches_type_table(F, R)
     # ---- (i) evaluation order ------------------------------------------------------------------------------------------------------------
     def paths(var):
         r = res["expr"].get((var, "fn"))
